@@ -90,7 +90,7 @@ def run(args):
 def run_benign(args):
     from .cli import PROPS
     root = args.repo or os.environ.get("GVERIF_REPO", "/repo")
-    jobs = [("benign", sid, d, root, PROPS) for sid, d in corpus("benign") if not args.ids or sid in args.ids]
+    jobs = [("benign", sid, d, root, PROPS) for sid, d in corpus(getattr(args, "dir", None) or "benign") if not args.ids or sid in args.ids]
     worst = 0
     for kind, sid, state, hit in _pool(jobs):
         if state != "done":
